@@ -177,6 +177,9 @@ def semi_a2orbital_motion(semi_major_axis: 'FloatArray', host_mass: float, targe
     if target_mass < 0.:
         raise BadValueError('Target mass must be greater than or equal to zero.')
 
-    orbital_motion = np.sqrt(G * (host_mass + target_mass) / semi_major_axis**3)
+    # The separation may be handed in as an integer (or an integer array): cube it as a float, a**3 leaves the int64 range
+    #    for any separation above ~2000 km.
+    semi_major_axis_float = 1. * semi_major_axis
+    orbital_motion = np.sqrt(G * (host_mass + target_mass) / semi_major_axis_float**3)
 
     return orbital_motion
